@@ -1080,7 +1080,7 @@ func w6LockPairing(p *model.Prog, r *report.Result, rule string) {
 func w6Counterpart(p *model.Prog, r *report.Result, prop string) {
 	rule := prop + ".PAIR"
 	files := propAnchorFiles[prop]
-	r.Rule(rule, "in the files this property is anchored in ("+strings.Join(files, ", ")+"): no plain copy (assignment, struct literal field, argument bound to a named parameter) takes its value from the counterpart of what its target is named after - target name carries one word of read/wrote, audio/video, pts/dts, sps/pps/vps, pub/sub, pull/push, rtp/rtcp, in/out, first/last, width/height, src/dst, local/remote, min/max, begin/end, start/stop, key/value; source name carries the other word and not the target's - while a value of the same type named after the target's word is in scope; nor does an if-statement test X while its block works on X's twin (the same name with the pair word exchanged, same type) and never mentions X. Decided on the type-checked syntax; arithmetic is not judged, nor is a bare `dts` set from a pts value (a PES that carries no DTS)")
+	r.Rule(rule, "in the files this property is anchored in ("+strings.Join(files, ", ")+"): no plain copy (assignment, struct literal field, argument bound to a named parameter) takes its value from the counterpart of what its target is named after - target name carries one word of read/wrote, audio/video, pts/dts, sps/pps/vps, pub/sub, pull/push, rtp/rtcp, in/out, first/last, width/height, src/dst, local/remote, min/max, begin/end, start/stop, key/value; source name carries the other word and not the target's - while a value of the same type named after the target's word is in scope; nor is a value of package avc compared with a constant of package hevc (or the reverse); nor does an if-statement test X while its block works on X's twin (the same name with the pair word exchanged, same type) and never mentions X. Decided on the type-checked syntax; arithmetic is not judged, nor is a bare `dts` set from a pts value (a PES that carries no DTS)")
 	n := 0
 	for _, h := range CounterpartHits(p) {
 		in := false
